@@ -55,7 +55,12 @@ def run_scripts(exe, scripts, scratch, tag="core", nproc=None, per_file=None):
         # can leave a torn line behind: such lines carry no event and are dropped
         torn = False
         with open(tp, "rb") as f:
-            for ln in f:
+            head = f.read()
+        if b'"why":"crash' in head or b'"why":"abort"' in head or b'"why":"killed"' in head or b"\x00" in head:
+            torn = True      # some process died: look at every line properly
+        del head
+        with open(tp, "rb") as f:
+            for ln in (f if not torn else ()):
                 if not (_LINE_OK.match(ln) and ln.endswith(b'}\n') and ln.count(b'{"t":') == 1 and b'\x00' not in ln):
                     torn = True
                     break
